@@ -149,4 +149,66 @@ theorem c08_counter_limit :
       (scrubRun false 1 0 work)[0]? = some t ∧ t.protected = true :=
   ⟨[(⟨true, false⟩, .ioError)], ⟨true, false⟩, rfl, rfl, rfl⟩
 
+/-! ### the block read loop (handle.c handle_read)
+
+`do { r = pread(...); if (r < 0) error; if (r == 0) error (unexpected end of file); count += r; } while (count < size)`:
+a block is read with as many `pread` calls as the kernel needs. -/
+
+/-- what one `pread` call returns -/
+inductive PRead where
+  | bytes (n : Nat)     -- n > 0 bytes
+  | eof                 -- 0
+  | err                 -- -1 with errno
+deriving DecidableEq, Repr
+
+/-- outcome of reading a block of `size` bytes with the given sequence of `pread` results, `count` bytes read so
+    far: `some true` = the whole block was read, `some false` = reported as a read error, `none` = the
+    kernel results listed do not suffice (the loop would issue another call) -/
+def readLoop (size : Nat) : Nat → List PRead → Option Bool
+  | count, [] => if count ≥ size then some true else none
+  | count, r :: rest =>
+    if count ≥ size then some true else
+    match r with
+    | .bytes n => if n = 0 then some false else readLoop size (count + n) rest
+    | .eof => some false
+    | .err => some false
+
+/-- a block counts as read only if no call reported an error or an end of file before the last byte:
+    an error AFTER a short read is still an error of this block -/
+theorem read_ok_means_no_error (size : Nat) (count : Nat) (rs : List PRead) (h : readLoop size count rs = some true) :
+    ∃ k, (∀ r ∈ rs.take k, ∃ n, r = .bytes n ∧ n ≠ 0) ∧
+      size ≤ count + ((rs.take k).map fun r => match r with | .bytes n => n | _ => 0).sum := by
+  induction rs generalizing count with
+  | nil =>
+    refine ⟨0, by simp, ?_⟩
+    simp only [readLoop] at h
+    split at h
+    · simpa using ‹count ≥ size›
+    · cases h
+  | cons r rest ih =>
+    simp only [readLoop] at h
+    split at h
+    · exact ⟨0, by simp, by simpa using ‹count ≥ size›⟩
+    · cases r with
+      | eof => simp at h
+      | err => simp at h
+      | bytes n =>
+        simp only at h
+        split at h
+        · cases h
+        · rename_i hn
+          obtain ⟨k, h1, h2⟩ := ih (count + n) h
+          refine ⟨k + 1, ?_, ?_⟩
+          · intro r hr
+            simp only [List.take_succ_cons, List.mem_cons] at hr
+            rcases hr with rfl | hr
+            · exact ⟨n, rfl, hn⟩
+            · exact h1 r hr
+          · simp only [List.take_succ_cons, List.map_cons, List.sum_cons]
+            omega
+
+/-- a short read followed by an error is a read error (the seeded change C08e returned "read") -/
+example : readLoop 1024 0 [.bytes 512, .err] = some false := by decide
+example : readLoop 1024 0 [.bytes 512, .bytes 512] = some true := by decide
+
 end SnapraidVerif.Props.C08
